@@ -271,19 +271,19 @@ func (e *executor) execCall(fr *frame, st *State, in *Instr) error {
 		pres := fmt.Sprintf("map_%s_v%d_present", smt.Sanitize(mi.Name), ver)
 		vals := fmt.Sprintf("map_%s_v%d_value", smt.Sanitize(mi.Name), ver)
 		ks := smt.BV(int(8 * mi.KeySize))
-		e.ctx.DeclareFun(pres, []string{ks}, smt.Bool)
-		e.ctx.DeclareFun(vals, []string{ks}, arrSort)
-		found := e.ctx.Let("found_"+mi.Name, smt.App(smt.Bool, pres, key))
+		e.tm.declFun(pres, []string{ks}, smt.Bool)
+		e.tm.declFun(vals, []string{ks}, arrSort)
+		found := e.tm.named("found_"+mi.Name, smt.App(smt.Bool, pres, key))
 		r := e.newRegion(rkMapVal, fmt.Sprintf("%s_%d", mi.Name, len(e.probes.calls)), mi.ValueSize)
 		r.Map = mi.Name
-		r.init = &RegMem{Base: e.ctx.Let("mapval_"+mi.Name, smt.App(arrSort, vals, key)), Ov: map[int64]Byte{}}
+		r.init = &RegMem{Base: e.tm.named("mapval_"+mi.Name, smt.App(arrSort, vals, key)), Ov: map[int64]Byte{}}
 		p := &Ptr{Reg: smt.Ite(found, regLit(r.ID), regLit(ridNull)), Off: lit(0, 64), OffUB: 0, Cands: []int{ridNull, r.ID}}
 		set(&Val{W: 64, IsPtr: true, P: p})
 		old, ok := st.found[mi.Name]
 		if !ok {
 			old = smt.False
 		}
-		st.found[mi.Name] = e.ctx.Let("everfound_"+mi.Name, smt.Or(old, found))
+		st.found[mi.Name] = e.tm.named("everfound_"+mi.Name, smt.Or(old, found))
 		cp.mapName, cp.key, cp.keySize, cp.found, cp.valSize = mi.Name, key, int(mi.KeySize), found, int(mi.ValueSize)
 		for i := int64(0); i < mi.ValueSize; i++ {
 			cp.valBytes = append(cp.valBytes, smt.Select(r.init.Base, lit(uint64(i), 64)))
@@ -342,8 +342,8 @@ func (e *executor) execCall(fr *frame, st *State, in *Instr) error {
 		ok := e.tm.icmp("eq", rv.T, lit(0, rv.W))
 		delta := e.tm.sext(args[1].T, args[1].W, 64)
 		nl := e.tm.let("newlen", e.tm.add(st.pktLen, delta))
-		e.ctx.Axiom("adjust_tail:"+rv.T.S, smt.Implies(ok, smt.And(e.tm.icmp("sge", nl, lit(0, 64)), e.tm.icmp("sle", nl, lit(65535, 64)))), rv.T.S)
-		st.pktLen = e.ctx.Let("pktlen", smt.Ite(ok, nl, st.pktLen))
+		e.tm.axiom("adjust_tail:"+rv.T.S, smt.Implies(ok, smt.And(e.tm.icmp("sge", nl, lit(0, 64)), e.tm.icmp("sle", nl, lit(65535, 64)))), rv.T.S)
+		st.pktLen = e.tm.named("pktlen", smt.Ite(ok, nl, st.pktLen))
 		set(rv)
 		cp.ret = rv.T
 		cp.aux = args[1].T
@@ -371,7 +371,7 @@ func (e *executor) execCall(fr *frame, st *State, in *Instr) error {
 		if !ok {
 			return unsupported("bpf_ringbuf_reserve with variable size")
 		}
-		got := e.ctx.Fresh("ringbuf_reserved", smt.Bool)
+		got := e.tm.freshConst("ringbuf_reserved", smt.Bool)
 		r := e.newRegion(rkRingbuf, fmt.Sprintf("ringbuf_%d", len(e.probes.calls)), int64(n))
 		p := &Ptr{Reg: smt.Ite(got, regLit(r.ID), regLit(ridNull)), Off: lit(0, 64), OffUB: 0, Cands: []int{ridNull, r.ID}}
 		set(&Val{W: 64, IsPtr: true, P: p})
@@ -402,23 +402,23 @@ func (e *executor) execCall(fr *frame, st *State, in *Instr) error {
 		rv := symRet("skb_store_bytes_ret")
 		ok0 := e.tm.icmp("eq", rv.T, lit(0, rv.W))
 		off := e.tm.zext(args[1].T, args[1].W, 64)
-		e.ctx.Axiom("store_bytes:"+rv.T.S, smt.Implies(ok0, e.tm.icmp("ule", e.tm.addConst(off, n), st.pktLen)), rv.T.S)
+		e.tm.axiom("store_bytes:"+rv.T.S, smt.Implies(ok0, e.tm.icmp("ule", e.tm.addConst(off, n), st.pktLen)), rv.T.S)
 		old := e.flush(st.regMem(e, ridPacket))
 		arr := old.Base
 		for i, b := range bytes {
 			arr = smt.Store(arr, e.tm.addConst(off, uint64(i)), b)
 		}
-		st.mem[ridPacket] = &RegMem{Base: e.ctx.Let("mem", smt.Ite(ok0, arr, old.Base)), Ov: map[int64]Byte{}}
+		st.mem[ridPacket] = &RegMem{Base: e.tm.named("mem", smt.Ite(ok0, arr, old.Base)), Ov: map[int64]Byte{}}
 		set(rv)
 		cp.ret = rv.T
 	case "bpf_l3_csum_replace", "bpf_l4_csum_replace":
 		rv := symRet("csum_replace_ret")
 		ok0 := e.tm.icmp("eq", rv.T, lit(0, rv.W))
 		off := e.tm.zext(args[1].T, args[1].W, 64)
-		e.ctx.Axiom("csum_replace:"+rv.T.S, smt.Implies(ok0, e.tm.icmp("ule", e.tm.addConst(off, 2), st.pktLen)), rv.T.S)
+		e.tm.axiom("csum_replace:"+rv.T.S, smt.Implies(ok0, e.tm.icmp("ule", e.tm.addConst(off, 2), st.pktLen)), rv.T.S)
 		old := e.flush(st.regMem(e, ridPacket))
 		arr := smt.Store(smt.Store(old.Base, off, e.fresh("csum_b0", 8).T), e.tm.addConst(off, 1), e.fresh("csum_b1", 8).T)
-		st.mem[ridPacket] = &RegMem{Base: e.ctx.Let("mem", smt.Ite(ok0, arr, old.Base)), Ov: map[int64]Byte{}}
+		st.mem[ridPacket] = &RegMem{Base: e.tm.named("mem", smt.Ite(ok0, arr, old.Base)), Ov: map[int64]Byte{}}
 		set(rv)
 		cp.ret = rv.T
 	case "bpf_csum_diff":
